@@ -554,7 +554,7 @@ def main(ctx):
     }
     RF = {
         "i8": [0, 1, 2, -1],
-        "f8": [0.5, 2.0, float("-inf")],
+        "f8": [0.5, 2.0, float("-inf"), float("inf")],
         "u1": [0, 1, 255],
         "?": [False, True],
     }
